@@ -551,6 +551,11 @@ func cmdCheck(args []string) int {
 		"wall_s":      time.Since(t0).Seconds(),
 		"violations":  violations,
 	}
+	if os.Getenv("GOSYM_KFAUDIT") != "" {
+		for _, k := range known {
+			fmt.Printf("KF-AUDIT %s hits=%d exclusive=%d\n", k.ID, engine.KFHits[k.ID], engine.KFExclusive[k.ID])
+		}
+	}
 	eb, _ := json.MarshalIndent(ev, "", " ")
 	os.MkdirAll(filepath.Join(outDir(vd), "evidence"), 0o755)
 	os.WriteFile(filepath.Join(outDir(vd), "evidence", id+".json"), eb, 0o644)
